@@ -23,8 +23,9 @@ pub async fn get_request_addr(stream: &mut TcpStream) -> anyhow::Result<Address>
     tokio::time::timeout(Duration::from_secs(30), async {
         let next = recognize(stream).await?;
         match next {
-            Proxy::Http(address) => Ok(address),
+            Proxy::Http(address) => check_address(address),
             Proxy::Https(address) => {
+                let address = check_address(address)?;
                 let _ = stream.read(&mut [0; 1024]).await?;
                 stream.write_all(b"HTTP/1.1 200 Connection established\r\n\r\n").await?;
                 Ok(address)
@@ -33,13 +34,23 @@ pub async fn get_request_addr(stream: &mut TcpStream) -> anyhow::Result<Address>
                 let local_addr = stream.local_addr()?;
                 let response = Socks5CommandResponse::new(Socks5CommandStatus::Success, local_addr.into());
                 let handshake = socks5::handshake::server::no_auth(stream, response).await?;
-                Ok(handshake.dst_addr)
+                check_address(handshake.dst_addr)
             }
             Proxy::Unknown => bail!("unknown type of handshake"),
             Proxy::Error(msg) => bail!(msg),
         }
     })
     .await?
+}
+
+/// A domain name is carried with a one-byte length prefix by every outbound protocol
+fn check_address(address: Address) -> anyhow::Result<Address> {
+    if let Address::Domain(host, _) = &address {
+        if host.is_empty() || host.len() > u8::MAX as usize {
+            bail!("unsupported length of domain name: {}", host.len());
+        }
+    }
+    Ok(address)
 }
 
 async fn recognize(stream: &mut TcpStream) -> Result<Proxy, anyhow::Error> {
